@@ -132,6 +132,8 @@ def render_epub(doc, *, images=None, opts=None, **kw) -> bytes:
     imgs = [(f"images/image{j + 1}.{im['ext']}", {"png": "image/png", "jpeg": "image/jpeg", "gif": "image/gif", "bmp": "image/bmp"}[im["ext"]], im["data"]) for j, im in enumerate(images or [])]
     if opts.get("ghost_image") and imgs:
         imgs = [("images/ghost.png", "image/png", None)] + imgs        # a manifest item whose file is missing must not disturb the numbering 1..n of the others
+    if opts.get("repeat_dc"):
+        p = dict(p, _repeat_dc=True)
     return wrappers.epub_bytes(chapters, title=p.get("title") or "VF Book", creator=p.get("author") or "VF Author", props=p, images=imgs, manifest_order=manifest_order)
 
 
